@@ -14,8 +14,11 @@ open Codec
 
 /-! ### well-formedness -/
 
-/-- a value fits a 16-bit length field together with its 4-byte header -/
+/-- a parameter / cause value fits a 16-bit length field together with its 4-byte header -/
 def fits (n : Nat) : Bool := n + 4 < 65536
+/-- a chunk value is shorter than 2^16 bytes. (Values of 65532…65535 bytes make the 16-bit chunk length
+wrap; `chunkHeader.unmarshal` computes the value length with the same wrap, so they still round-trip.) -/
+def fitsV (n : Nat) : Bool := n < 65536
 
 def wfParam : Param → Bool
   | .heartbeatInfo i => fits i.length
@@ -49,29 +52,29 @@ loop stops at `remaining ≤ 4`, so a trailing ECN-capable / Forward-TSN-support
 def wfInit (c : InitCommon) : Bool :=
   c.params.all wfParam && c.unrec.isEmpty &&
   (match c.params.getLast? with | none => true | some p => paramLen p > 4) &&
-  fits (initCommonMarshal c).length
+  fitsV (initCommonMarshal c).length
 
 def wfChunk : Chunk → Bool
   | .data iData _ b _ _ _ _ ssn mid fsn ppi ud =>
     (if iData then ssn = mid.setWidth 16 && (if b then fsn = 0#32 else ppi = 0#32)
-     else mid = 0#32 && fsn = 0#32) && fits ((if iData then 16 else 12) + ud.length)
+     else mid = 0#32 && fsn = 0#32) && fitsV ((if iData then 16 else 12) + ud.length)
   | .init flags c => flags = 0#8 && wfInit c
   | .initAck flags c => flags = 0#8 && wfInit c
-  | .sack _ _ _ gaps dups => fits (12 + 4 * gaps.length + 4 * dups.length)
-  | .heartbeat ps => (match ps with | [.heartbeatInfo i] => fits (4 + i.length) | _ => false)
+  | .sack _ _ _ gaps dups => fitsV (12 + 4 * gaps.length + 4 * dups.length)
+  | .heartbeat ps => (match ps with | [.heartbeatInfo i] => fits i.length | _ => false)
   | .heartbeatEmpty typ _ raw => typ = ctHeartbeat && raw.isEmpty
-  | .heartbeatAck _ ps => (match ps with | [.heartbeatInfo i] => fits (4 + i.length) | _ => false)
-  | .abort cs => cs.all wfCause && fits (cs.map fun c => 4 + c.data.length).sum
-  | .error cs => cs.all wfCause && fits (cs.map fun c => 4 + c.data.length).sum
+  | .heartbeatAck _ ps => (match ps with | [.heartbeatInfo i] => fits i.length | _ => false)
+  | .abort cs => cs.all wfCause && fitsV (cs.map fun c => 4 + c.data.length).sum
+  | .error cs => cs.all wfCause && fitsV (cs.map fun c => 4 + c.data.length).sum
   | .shutdown _ _ => true
-  | .shutdownAck _ raw => fits raw.length
-  | .shutdownComplete _ raw => fits raw.length
-  | .cookieEcho _ c => fits c.length
-  | .cookieAck _ raw => fits raw.length
+  | .shutdownAck _ raw => fitsV raw.length
+  | .shutdownComplete _ raw => fitsV raw.length
+  | .cookieEcho _ c => fitsV c.length
+  | .cookieAck _ raw => fitsV raw.length
   | .reconfig _ a b =>
     wfParam a && (match b with | none => true | some b => wfParam b) &&
-    fits (match b with | none => paramLen a | some b => paramLen a + pad4 (paramLen a) + paramLen b)
-  | .forwardTsn _ _ ss => fits (4 + 4 * ss.length)
+    fitsV (match b with | none => paramLen a | some b => paramLen a + pad4 (paramLen a) + paramLen b)
+  | .forwardTsn _ _ ss => fitsV (4 + 4 * ss.length)
   | .iForwardTsn _ _ ss => normalizeStreams ss = ss && ss.length ≤ Gen.maxIForwardTSNStreams
 
 def wfPacket (p : Packet) : Bool := p.chunks.all wfChunk
